@@ -67,6 +67,12 @@ def fneg (x : F32) : F32 := F32.neg x
 def hvPush {α} (cap : Nat) (l : List α) (x : α) : List α := if l.length < cap then l ++ [x] else l
 
 /-- iterations a translated `while` loop is unrolled to; a loop still running then yields `none` (no statement made) -/
+theorem uadd_ok {bound a b : Nat} (h : a + b < bound) : uadd bound a b = some (a + b) := by simp [uadd, chk, h]
+theorem umul_ok {bound a b : Nat} (h : a * b < bound) : umul bound a b = some (a * b) := by simp [umul, chk, h]
+theorem usub_ok {a b : Nat} (h : b ≤ a) : usub a b = some (a - b) := by simp [usub, h]
+theorem udiv_ok {a b : Nat} (h : b ≠ 0) : udiv a b = some (a / b) := by simp [udiv, h]
+theorem urem_ok {a b : Nat} (h : b ≠ 0) : urem a b = some (a % b) := by simp [urem, h]
+
 def whileFuel : Nat := 64
 
 /-- nesting depth to which a directly recursive function is unrolled -/
